@@ -133,6 +133,12 @@ def write_tree(root, files):
     for rel, text in files:
         p = os.path.join(root, rel)
         os.makedirs(os.path.dirname(p), exist_ok=True)
+        if text.startswith("\0symlink:"):
+            # a symbolic link (target relative to the link's directory); replaces whatever is there
+            if os.path.lexists(p):
+                os.unlink(p)
+            os.symlink(text[len("\0symlink:"):], p)
+            continue
         with open(p, "w", encoding="utf-8") as f:
             f.write(text)
 
